@@ -82,14 +82,14 @@ def main(argv):
         gen = os.path.join(wd, "name_cases.ndjson")
         chk.run_gen("Gen_NameWire", "Gen_NameWire.cfg", wd, gen, 4, 300)
         lines = [l for l in open(record("name", cases=[gen])).read().splitlines() if '"ok"' in l][:5]
-        fails, ok = validate(lines, ["NoPanic", "NameRef", "NameMustErr"], "name_ok")
+        fails, ok = validate(lines, ["NameNoPanic", "NameRef", "NameMustErr"], "name_ok")
         assert ok and not fails, "clean name trace must be accepted"
         ev = json.loads(lines[1])
         i = next(k for k, r in enumerate(ev["r"]) if r[0] == "ok")
         ev["r"][i][2] += 1
         lines2 = list(lines)
         lines2[1] = json.dumps(ev)
-        fails, ok = validate(lines2, ["NoPanic", "NameRef", "NameMustErr"], "name_bad")
+        fails, ok = validate(lines2, ["NameNoPanic", "NameRef", "NameMustErr"], "name_bad")
         good = ok and fails == [(2, "NameRef")]
         chk.log(f"selftest: corrupted resume cursor in event 2 -> {fails} {'OK' if good else 'UNEXPECTED'}")
         bad += 0 if good else 1
